@@ -80,12 +80,11 @@ PROPS = {
         standin=True,
     ),
     'C07': dict(
-        level='other',
-        level_text='mixed: (proved) Kani proves on the real codecs that symbol complement is the documented involution for Dna, Iupac, masked Dna/Iupac and degenerate; Verus proves the bit-level lemma that reversing all bits and then each BITS-wide chunk reverses the symbol list, and the chunk-wise map lemma; (bounded, plan B) the in-place loops ReverseMut::rev / ComplementMut::comp over bitvec chunk iterators and the to_* wrappers are covered by a bounded stand-in on the real crate',
-        level_note=B_NOTE + '; ' + KANI_NOTE + '; loop contracts of rev/comp are NOT proved (plan B of DESIGN.md section 6): Verus has no usable spec for bitvec mutable chunk iterators on this image',
-        technique='Kani (complete over symbols) + Verus bit-level lemmas; bounded stand-in for the in-place loops (labelled bounded)',
-        explanation='obligations/discharged count Kani checks and Verus lemma verification conditions only; the loops are exercised by the stand-in: all lengths 0..4 (thorough 0..8) and word-straddling lengths at every start offset, every codec',
-        verus=[dict(name='c07', mode='T', roots=['lemma_rev_bits'])],
+        level='proof',
+        level_text='plan A of DESIGN.md: Verus proves the in-place loops ReverseMut::rev and ComplementMut::comp of Seq and SeqSlice VERBATIM (for-loops over bitvec mutable chunk iterators, unsafe block and remove_alias included) against relational contracts: rev yields the symbols in opposite order, comp replaces each symbol by a comp-related symbol and nothing else; the copying forms to_rev/to_comp/to_revcomp and revcomp (default trait methods of lib.rs) are proved to be the in-place form on an owned copy; lemmas give rev o rev = id and the same per-position result for either order of composition; Kani proves on the real codecs that symbol complement is the documented involution',
+        level_note=B_NOTE + '; additionally assumes the prophetic-iterator contracts of chunks_exact_mut / rchunks_exact_mut / remove_alias and BitSlice::reverse / load_le / store (layer B); ' + KANI_NOTE + '; a bounded stand-in on the real crate cross-checks the loop contracts (labelled bounded, not counted)',
+        technique='deductive verification (Verus) of the loops with prophetic iterator specs + Kani complete over symbols',
+        verus=[dict(name='c07', mode='T', roots=['seq.rev', 'slice.rev', 'seq.comp', 'slice.comp', 'lib.wrappers', 'lemma_c07', 'lemma_rev_bits', 'slice.to_owned'])],
         kani=dict(quick=['complement_' + c for c in ['dna', 'iupac', 'masked_dna', 'masked_iupac', 'degenerate']], profiles=['debug', 'release'], quick_profiles=['debug']),
         standin=True,
     ),
@@ -156,11 +155,11 @@ PROPS.update({
         standin=True,
     ),
     'C20': dict(
-        level='other',
-        level_text='mixed: (proved) Kani proves every symbol-level clause for all 32 masked-IUPAC and 14 masked-DNA symbols (case forms, idempotence/involution, unmask o mask = unmask, nucleotide set unchanged, commutes with complement, gap/pad fixed); (bounded, plan B) the sequence-level loops MaskableMut for Seq and to_mask/to_unmask are covered by a bounded stand-in including 5-bit symbols straddling 64-bit words',
-        level_note=KANI_NOTE + '; loop contracts of mask/unmask on Seq are not proved (same obstacle as C07)',
-        technique='Kani (complete over symbols); bounded stand-in for the in-place loops (labelled bounded)',
-        explanation='obligations count Kani checks only; stand-in lengths 0,1,2,3,12,13,14,25,26,38,39,51,52,64,70',
+        level='proof',
+        level_text='Kani proves every symbol-level clause for all 32 masked-IUPAC and 14 masked-DNA symbols (case forms, idempotence/involution, unmask o mask = unmask, nucleotide set unchanged, commutes with complement, gap/pad fixed); Verus proves the sequence-level loops MaskableMut::mask/unmask for Seq VERBATIM (plan A: prophetic chunk iterators): every position is replaced by a mask-/unmask-related symbol, length and all other bits unchanged, for every symbol width (so 5-bit symbols straddling words are covered by the view abstraction), and to_mask/to_unmask are the in-place forms on a copy',
+        level_note=B_NOTE + '; prophetic-iterator contracts of chunks_exact_mut / remove_alias assumed (layer B); ' + KANI_NOTE + '; bounded stand-in cross-checks at positions 12, 25, 38, 51 (labelled bounded)',
+        technique='Kani (complete over symbols) + deductive verification (Verus) of the loops',
+        verus=[dict(name='c20', mode='T', roots=['seq.mask', 'lib.wrappers', 'seq.comp', 'seq.rev'])],
         kani=dict(quick=['mask_iupac', 'mask_dna', 'complement_masked_dna', 'complement_masked_iupac', 'codec_contract_masked_dna', 'codec_contract_masked_iupac'], profiles=['debug', 'release'], quick_profiles=['debug']),
         standin=True,
     ),
